@@ -87,6 +87,16 @@ def full_env(ctx: Ctx, cel, cellname, width, seed):
     return env
 
 
+def valid_env(ctx: Ctx, cel, cellname, width, seed):
+    """A concrete input inside the stated assumptions (divisors away from 0, sqrt/log arguments
+    in their domain), or None."""
+    for k in range(12):
+        env = full_env(ctx, cel, cellname, width, seed + 101 * k)
+        if assumptions_hold(ctx, env):
+            return env
+    return None
+
+
 def assumptions_hold(ctx: Ctx, env, used_vars=None) -> bool:
     val = ctx.evaluator(env)
     for kind, ids in ctx.atoms.items():
@@ -271,7 +281,10 @@ def _run_form(name, spec, res):
                     # translator self-validation against the real build of the same text
                     if ci == 0:
                         for s in (1, 2):
-                            env = full_env(ctx, cel, cellname, width, s)
+                            env = valid_env(ctx, cel, cellname, width, s)
+                            if env is None:
+                                res["inconclusive"].append(f"{label}: no concrete input inside the assumptions for self-validation")
+                                continue
                             w, cc, x = ksym.pack(inp, env)
                             Ac = ksym.call_c_kernel(lib, kern, nA, w, cc, x, ents, (0, 0))
                             val = ctx.evaluator(env)
